@@ -120,6 +120,11 @@ def _plant(n, kind, rnd, t):
         n.content = "Gau\ud800ghan"                 # a str with a lone surrogate (a JSON document can carry one): an invalid node like any other
     elif kind == "invalid-attribute":
         n.add_attribute("zzBadAttr", "1")
+    elif kind == "allowed-but-invalid-child-in-front":
+        # a child with a name the rule allows (the name of the LAST child), but empty (invalid itself) and put in front of
+        # everything: once it is pruned the parent is as valid as it was
+        if n.children:
+            n.add_child(Node(n.children[-1].name), index=0)
     elif kind == "starve-required-child":
         if n.children:
             n.remove_child(n.children[0])
@@ -156,6 +161,21 @@ def record_prune(root, strict, desc, at=None):
     n = len(w.nodes)
     post_valid = [observe_valid(x) for x in w.nodes]
     removed_valid = list(post_valid)        # the removed roots keep their (already pruned) children: observed detached
+    if strict and not raised:
+        # strict mode removes a node only when it is STILL invalid once everything offending below it is gone: a removed root
+        # whose free-standing copy becomes valid by pruning it was removed too early
+        for item in out:
+            if isinstance(item, tuple) and len(item) == 2 and w.ident(item[0]) > 0 and not removed_valid[w.ident(item[0]) - 1]:
+                try:
+                    c = item[0].copy()
+                    c.parent = None
+                    with deadline(20):
+                        validate.prune(c, strict=True)
+                    if observe_valid(c):
+                        removed_valid[w.ident(item[0]) - 1] = True
+                    Node.delete_node_instance(c.id)
+                except Exception:  # noqa: BLE001
+                    pass
     second_raised = ""
     try:
         with deadline(20):
